@@ -8,6 +8,9 @@
 -/
 import Asn1.Container
 import Proofs.ContainerEnc
+import Proofs.Canonical
+import Proofs.Placed
+import Props.C02
 
 namespace Asn1.C04
 open Asn1.Container
@@ -42,6 +45,62 @@ theorem equal_abs_equal_bytes (isSet : Bool) (fields : List FK) (hN : fields.len
   constructor
   · rw [rec_encodeObj_factors _ isSet fields hN st₁ v h₁, rec_encodeObj_factors _ isSet fields hN st₂ v h₂, ht]
   · rw [rec_encodeObj_factors _ isSet fields hN st₁ v h₁, rec_encodeObj_factors _ isSet fields hN st₂ v h₂, ht]
+
+/-! ### the whole type universe: one DER encoding, one CER encoding per abstract value
+
+`canonical_encoding` (Proofs/Canonical.lean): for an encoder that sorts SET OF, two values that are the
+same abstract value (`VEq`: SET OF compared as a multiset at every depth, REAL as the number denoted)
+get the same octets.  Region: as for the codec theorems, and every DEFAULT member has a type on which
+`VEq` is plain equality (`Ty.dfltExact`: the encoders decide omission of a DEFAULT member with `==` on
+the stored components - a DEFAULT of SET OF or REAL type is the recorded finding T11's territory). -/
+
+/-- **DER bytes depend only on the abstract value** -/
+theorem der_bytes_depend_only_on_value_partial (o : EncOpts) (hi : o.ifNotEmpty = false) (t : Ty) (v v' : Val)
+    (hreg : t.reg true Generated.derEnc true = true) (hwf : t.WF = true) (hd : t.dfltExact = true)
+    (hty : HasType t v = true) (hn : noE3 true t v = true) (hv : VEq t v v') (b : Bytes)
+    (h : encItem Generated.derEnc o t v = .ok b) : encItem Generated.derEnc o t v' = .ok b :=
+  canonical_encoding Generated.derEnc derProfile o hi rfl (C02.der_region o) t v v' hreg hwf hd hty hn hv b h
+
+/-- **CER bytes depend only on the abstract value** -/
+theorem cer_bytes_depend_only_on_value_partial (o : EncOpts) (hi : o.ifNotEmpty = false) (t : Ty) (v v' : Val)
+    (hreg : t.reg true Generated.cerEnc false = true) (hwf : t.WF = true) (hd : t.dfltExact = true)
+    (hty : HasType t v = true) (hn : noE3 true t v = true) (hv : VEq t v v') (b : Bytes)
+    (h : encItem Generated.cerEnc o t v = .ok b) : encItem Generated.cerEnc o t v' = .ok b :=
+  canonical_encoding Generated.cerEnc cerProfile o hi rfl (C02.cer_region o) t v v' hreg hwf hd hty hn hv b h
+
+/-- **any order of the members of a SET OF gives the same DER** - every element type of the region (the
+    "full statement" this file used to carry as a comment next to the INTEGER-only theorem) -/
+theorem setOf_perm_invariant (o : EncOpts) (hi : o.ifNotEmpty = false) (t : Ty) (xs ys : List Val)
+    (hreg : t.reg true Generated.derEnc true = true) (hwf : t.WF = true) (hd : t.dfltExact = true)
+    (hty : ∀ x ∈ xs, HasType t x = true) (hn : ∀ x ∈ xs, noE3 true t x = true) (p : xs.Perm ys) (b : Bytes)
+    (h : encItem Generated.derEnc o (.setOf t) (.seqOf xs) = .ok b) :
+    encItem Generated.derEnc o (.setOf t) (.seqOf ys) = .ok b := by
+  refine der_bytes_depend_only_on_value_partial o hi (.setOf t) (.seqOf xs) (.seqOf ys) (by simpa [Ty.reg] using hreg)
+    (by simpa [Ty.WF] using hwf) (by simpa [Ty.dfltExact] using hd) (by simpa [HasType] using hty)
+    (by simpa [noE3] using hn) ?_ b h
+  refine ⟨xs, ?_, p⟩
+  have : ∀ (l : List Val), (∀ x ∈ l, HasType t x = true) → All2 (fun a b => VEq t a b) l l := by
+    intro l
+    induction l with
+    | nil => intro _; trivial
+    | cons a l ih => intro hl; exact ⟨veq_refl t a (hl a (by simp)), ih (fun x hx => hl x (by simp [hx]))⟩
+  exact this xs hty
+
+/-- the hypotheses are met by a non-trivial element type: SET OF (SET OF INTEGER), and by a record with a SET OF member,
+    a REAL and a DEFAULT of exact type -/
+example :
+    let t : Ty := .setOf (.prim .integer)
+    let r : Ty := .seq (.cons .req (.setOf (.tagged true .context 0 (.prim (.str 12)))) (.cons .req (.prim .real)
+      (.cons (.dflt (.int 7)) (.prim .integer) .nil)))
+    t.reg true Generated.derEnc true = true ∧ t.dfltExact = true ∧ t.WF = true ∧
+    r.reg true Generated.derEnc true = true ∧ r.dfltExact = true ∧ r.WF = true ∧
+    HasType r (.seq [.seqOf [.str [0x62], .str [0x61, 0x61]], .real (.fin 12 2 3), .int 7]) = true ∧
+    VEq r (.seq [.seqOf [.str [0x62], .str [0x61, 0x61]], .real (.fin 12 2 3), .int 7])
+          (.seq [.seqOf [.str [0x61, 0x61], .str [0x62]], .real (.fin 3 2 5), .int 7]) := by
+  refine ⟨by decide, by decide, by decide, by decide, by decide, by decide, by decide, ?_⟩
+  simp only [VEq, VEqFields, and_true]
+  refine ⟨⟨[.str [0x62], .str [0x61, 0x61]], by simp [All2, VEq], List.Perm.swap _ _ _⟩, ?_⟩
+  decide
 
 /-
   Full statement (for every element type T; needs the encoder-soundness hub: every complete DER/CER
